@@ -80,6 +80,8 @@ def enumerate_cases(tier):
 
 
 def pinned_cases():
+    yield 'receiver-with-smaller-mtu', {'mtu': 300, 'recv_mtu': 64, 'sends': [{'plen': 150, 'seed': 1, 'peer': 1}, {'plen': 900, 'seed': 2, 'peer': 1}],
+                                        'ops': [['d', 1, 0]], 'queries': ['pop', 'pop'], 'poll': False}
     yield 'three-segments-reversed', {'mtu': 100, 'sends': [{'plen': 150, 'seed': 1, 'peer': 1}], 'ops': [['d', 2, 0], ['d', 1, 0], ['d', 0, 0]],
                                       'queries': ['queue', 'pop', 'pop-twice', 'pop-unknown'], 'poll': True}
     yield 'same-host-two-ports-same-id', {'mtu': 60, 'sends': [{'plen': 150, 'seed': 1, 'peer': 1}, {'plen': 160, 'seed': 2, 'peer': 3}],
